@@ -521,11 +521,16 @@ func (vc *VC) load(st State, ref Term, t types.Type) Term {
 	}
 	if vc.inQuant == 0 {
 		inv := vc.typeInv(v, t)
+		// what a cell points to was allocated before now; for the entry memory: before entry
+		bound := st.get(vc, "$alloc")
+		if name := vc.memName(ti); st.get(vc, name).S == vc.entryTerm(name).S {
+			bound = vc.entryTerm("$alloc")
+		}
 		if ti.kind == "ref" {
-			inv = And(inv, App(SBool, "<", App(SInt, "root", v), st.get(vc, "$alloc")))
+			inv = And(inv, App(SBool, "<", App(SInt, "root", v), bound))
 		}
 		if ti.kind == "slice" {
-			inv = And(inv, App(SBool, "<", App(SInt, "root", vc.sliceArr(v)), st.get(vc, "$alloc")))
+			inv = And(inv, App(SBool, "<", App(SInt, "root", vc.sliceArr(v)), bound))
 		}
 		vc.assumeOnce(inv)
 	}
